@@ -187,6 +187,9 @@ def run(prop, tier, seed, replay=None):
     core.cargo_build()
     if replay:
         rp = json.load(open(replay))
+        if rp["instance"].get("dd"):
+            from . import p_sample
+            return p_sample.run(prop, tier, seed, replay)
         src = os.path.join(wd, "replay_in.ndjson")
         core.write_lines(src, rp["instance"]["run"][:1])
         tp = os.path.join(wd, "replay.ndjson")
@@ -216,6 +219,14 @@ def run(prop, tier, seed, replay=None):
             other[p] = other.get(p, 0) + 1
     if other:
         core.log("rejections attributed to other properties (reported by their own checks):", other)
+    ddc = None
+    if prop == "C19":
+        # semantically: a double-double user type really gets double-double accuracy in L, the factorisation, u, v, momenta, jacobian
+        from . import p_sample
+        rpath, rruns, rst, rn = p_sample.gen_routing(tier, wd, seed)
+        ddv, ddc = p_sample.dd_part(prop, tier, wd, seed, rpath)
+        violations += ddv
+        s["counters"]["violations_C19"] = s["counters"].get("violations_C19", 0) + ddc.get("violations_C19", 0)
     cov = {
         "states": r.distinct + tstates, "transitions": r.generated + tgen,
         "traces_validated_against_impl": acc,
@@ -231,6 +242,7 @@ def run(prop, tier, seed, replay=None):
                              "rejected_runs": len(rej), "rejections_other_properties": other, "invariants_on_trace": TRACE_INVS,
                              "tlc_states": tstates},
         "harness_counters": s["counters"],
+        "double_double_scalar": ddc,
         "apalache_inductive_invariant": apa,
         "trusted_base": ["TLC 1.8", "harness tracking scalar Tr (implements momtrop's public MomTropFloat trait)"],
     }
